@@ -16,7 +16,7 @@ META = {
              "d 2-4, cycles 0-8, full and simplified; multi-round experiment circuits); distinct by structural hash; non-trivial = nesting depth >= 2"),
     "assumptions": ["for generated programs only the multiset clause is asserted (the statement promises order/schedule only for library circuits)"],
     "floors": {
-        "quick": {"flatten_calls": 2500, "second_flatten_checks": 2500, "library_flatten_checks": 50, "library_unobserved_flatten_checks": 50, "leaves_compared": 30000, "deep_flatten_depth": 1300},
+        "quick": {"flatten_calls": 2500, "second_flatten_checks": 2500, "library_flatten_checks": 50, "library_unobserved_flatten_checks": 50, "simplified_zero_cycle_inputs": 8, "leaves_compared": 30000, "deep_flatten_depth": 1300},
         "thorough": {"flatten_calls": 30000, "second_flatten_checks": 30000, "library_flatten_checks": 150},
     },
 }
@@ -205,7 +205,11 @@ def run_shard(shard: Dict[str, Any]) -> Acc:
         return acc
     if shard["kind"] == "library":
         for i in range(shard["n"]):
-            inp = libgen.gen_repcode_input(rng, max_distance=4, max_cycles=8)
+            inp = libgen.gen_repcode_input(rng, max_distance=4, max_cycles=8, simplified_zero_cycles=True, composite_p=0.3)
+            if i < 8:
+                # directed corner: the simplified constructor with 0 cycles (a sub-circuit with repetition count 0)
+                inp["constructor"], inp["cycles"] = "simplified", 0
+                acc.count("simplified_zero_cycle_inputs")
             if rng.random() < 0.25 and inp["constructor"] == "full":
                 inp["multi_round"] = True
                 inp["rounds"] = rng.sample(range(0, 6), rng.randint(1, 3))
